@@ -40,7 +40,9 @@ ASSUMPTIONS = ["reference evaluator harness/graphs.py:ref_eval encodes the docum
 BOUNDS = {"quick": {"leaves": 3, "max_items": 2, "leaf_outcomes": ["value", "skip", "none", "zero", "disabled"],
                     "dag": {"max_nodes": 5, "edge_kinds": {"req": 5, "group": 4, "opt": 4}, "palettes": ["plain", "mixed"],
                             "deviations": ["skip", "disabled"], "hash_orders": ["index", "reversed (shapes with a shared dependency)"],
-                            "entries": ["run-target", "run-list", "graph-of"]}},
+                            "entries": ["run-target", "run-list", "graph-of"],
+                            "note": "5 nodes: required edges, deviation skip only, one door per shape (dr.run(target) when the shape "
+                                    "has a single target, dr.run([targets]) otherwise); everything else in full up to 4 nodes"}},
           "thorough": {"leaves": 3, "max_items": 3, "leaf_outcomes": ["value", "skip", "none", "zero", "disabled", "content", "error"],
                        "dag": {"max_nodes": 6, "edge_kinds": {"req": 6, "group": 5, "opt": 5},
                                "palettes": ["plain", "component", "combiner", "condition", "mixed"] ,
@@ -109,7 +111,8 @@ def unit_weight(u):
 # ---- part "dag": every small dependency DAG, evaluated through the doors that build the graph from targets ---------
 
 DAG = {"quick": {"kinds": {"req": 5, "group": 4, "opt": 4}, "palettes": ["plain", "mixed"], "dev": ["skip", "disabled"],
-                 "entries": ["run-target", "run-list", "graph-of"], "rev": "shared", "big": None},
+                 "entries": ["run-target", "run-list", "graph-of"], "rev": "shared", "big": None,
+                 "top": {"n": 5, "dev": ["skip"], "one_door": True}},
        "thorough": {"kinds": {"req": 5, "group": 5, "opt": 5}, "palettes": ["plain", "component", "combiner", "condition", "mixed"],
                     "dev": ["skip", "disabled", "error", "none"],
                     "entries": ["run-target", "run-list", "graph-of", "incremental", "run-all"], "rev": "all",
@@ -195,6 +198,9 @@ def run_dag_unit(unit, tier):
         shapes = [s for k, s in enumerate(dag_shapes(n)) if k % unit["of"] == unit["shard"]]
         kinds = big["kinds"] if big else [k for k in ("req", "group", "opt") if cfg["kinds"][k] >= n]
         devkinds = big["dev"] if big else cfg["dev"]
+        top = cfg.get("top") if cfg.get("top") and cfg["top"]["n"] == n else None     # the largest quick size is thinned out
+        if top:
+            devkinds = top["dev"]
         for shape in shapes:
             shared = _shared(shape)
             nedges = sum(len(d) for d in shape)
@@ -210,6 +216,8 @@ def run_dag_unit(unit, tier):
                             continue
                         for entry in cfg["entries"]:
                             if entry == "run-target" and nsinks != 1:
+                                continue
+                            if top and top["one_door"] and entry != ("run-target" if nsinks == 1 else "run-list"):
                                 continue
                             case = dag_case(shape, kind, pal, dev, rev, entry)
                             _run(res, case, nontrivial=shared, tag="%s/%s" % (entry, kind))
@@ -233,6 +241,8 @@ def check_graph_case(case):
         # "entry": the public door through which the graph is BUILT FROM THE TARGETS and evaluated
         entry = case.get("entry") or "graph-of"
         tnodes = [g.nodes[t] for t in targets]
+        if entry not in ("graph-of", "run-target", "run-list", "incremental", "run-all"):
+            raise ValueError(entry)
         try:
             if entry == "graph-of":
                 dr.run(g.dep_graph(targets), broker)            # dr.run(dr.get_dependency_graph(t) [merged over targets])
@@ -243,10 +253,8 @@ def check_graph_case(case):
             elif entry == "incremental":
                 for _ in dr.run_incremental(tnodes, broker):    # one evaluation per connected sub-graph, same broker
                     pass
-            elif entry == "run-all":
-                dr.run_all(tnodes, broker)
             else:
-                raise ValueError(entry)
+                dr.run_all(tnodes, broker)
         except Exception as ex:
             return [("run:raises", "dr.run returns", repr(ex))]
         in_graph = G.closure(desc, targets)
